@@ -119,3 +119,109 @@ func init() {
 		}
 	})
 }
+
+// ---- leaf model of the herumi BLS group types used by the Go aggregate-verification code ----
+//
+// BLS0ChainAggregateSignatureScheme.{Aggregate,Verify} (Go code, executed for real) add
+// signatures (bls.Sign.Add), multiply pairings (bls.GTMul) and compare one pairing of the sum
+// with the product. The library objects are replaced by lists:
+//   a Sign / G1 value  = list of signature strings (their group sum),
+//   a GT value         = list of (public key, message hash) pairs (the product of e(H(m), pk)),
+// and GT.IsEqual(pairing(sum of sigs), product) holds iff the lists have equal length and
+// every signature is individually valid for the pair at the same position ("ideal aggregate":
+// the cancellation of invalid signatures is excluded here; it is C32's subject).
+
+type blsSigs struct{ sigs []string }
+type blsPairs struct{ pairs [][2]string } // (pub hex, hash hex)
+
+func idealVerify(fr *frame, pubHex, sig, hashHex string) value {
+	if rec, ok := fr.i.p.sigs[strings.ToLower(sig)]; ok {
+		if rec[0] != pubHex {
+			return false
+		}
+		return strEqValue(fr, rec[1], hashHex)
+	}
+	h, err := hex.DecodeString(hashHex)
+	if err != nil {
+		return false
+	}
+	pub, _ := hex.DecodeString(pubHex)
+	return strings.ToLower(sig) == hex.EncodeToString(h256([]byte("sig"), pub, h))
+}
+
+func init() {
+	extraRegs = append(extraRegs, func() {
+		enc := "(*0chain.net/core/encryption.BLS0ChainScheme)."
+		bl := "github.com/herumi/bls-go-binary/bls."
+		externals[enc+"GetSignature"] = func(fr *frame, args []value) value {
+			sig := args[1].(string)
+			var nilp *value
+			if sig == "" {
+				return tuple{nilp, fr.i.makeError("empty signature")}
+			}
+			if _, err := hex.DecodeString(sig); err != nil {
+				return tuple{nilp, fr.i.makeError("invalid signature encoding")}
+			}
+			var cell value = blsSigs{[]string{sig}}
+			return tuple{&cell, iface{}}
+		}
+		externals[enc+"PairMessageHash"] = func(fr *frame, args []value) value {
+			s := (*args[0].(*value)).(structure)
+			pub, _ := s[1].([]value)
+			var nilp *value
+			if _, err := hex.DecodeString(args[1].(string)); err != nil {
+				return tuple{nilp, fr.i.makeError(err.Error())}
+			}
+			var cell value = blsPairs{[][2]string{{hex.EncodeToString(valuesToBytes(pub)), args[1].(string)}}}
+			return tuple{&cell, iface{}}
+		}
+		externals["(*"+bl+"Sign).Add"] = func(fr *frame, args []value) value {
+			a := (*args[0].(*value)).(blsSigs)
+			b := (*args[1].(*value)).(blsSigs)
+			*args[0].(*value) = blsSigs{append(append([]string{}, a.sigs...), b.sigs...)}
+			return nil
+		}
+		externals[bl+"GTMul"] = func(fr *frame, args []value) value {
+			b := (*args[1].(*value)).(blsPairs)
+			c := (*args[2].(*value)).(blsPairs)
+			*args[0].(*value) = blsPairs{append(append([][2]string{}, b.pairs...), c.pairs...)}
+			return nil
+		}
+		externals["(*"+bl+"Sign).Serialize"] = func(fr *frame, args []value) value {
+			return []value{*args[0].(*value)}
+		}
+		externals["(*"+bl+"G1).Deserialize"] = func(fr *frame, args []value) value {
+			b := args[1].([]value)
+			if len(b) == 1 {
+				if m, ok := b[0].(blsSigs); ok {
+					*args[0].(*value) = m
+					return iface{}
+				}
+			}
+			panic(unsupported("bls.G1.Deserialize of bytes that are not a modelled signature sum"))
+		}
+		externals[bl+"Pairing"] = func(fr *frame, args []value) value {
+			m, ok := (*args[1].(*value)).(blsSigs)
+			if !ok {
+				panic(unsupported("bls.Pairing outside the aggregate-verification model"))
+			}
+			*args[0].(*value) = m
+			return nil
+		}
+		externals["(*"+bl+"GT).IsEqual"] = func(fr *frame, args []value) value {
+			l, ok1 := (*args[0].(*value)).(blsSigs)
+			r, ok2 := (*args[1].(*value)).(blsPairs)
+			if !ok1 || !ok2 {
+				panic(unsupported("bls.GT.IsEqual outside the aggregate-verification model"))
+			}
+			if len(l.sigs) != len(r.pairs) {
+				return false
+			}
+			var res value = true
+			for i := range l.sigs {
+				res = andV(res, idealVerify(fr, r.pairs[i][0], l.sigs[i], r.pairs[i][1]))
+			}
+			return res
+		}
+	})
+}
